@@ -1,7 +1,7 @@
 CONSTANTS Paths = {"encoding/json", "a.com/json", "a.com/v1/json", "a/b", "x/a/b", "ab", "k8s.io/api/core/v1", "k8s.io/api/apps/v1", "github.com/json-iterator/go", "a.com/x/type", "a.com/x/1pkg", "a.com/foo-bar", "a.com/foo_bar", "a.com/apis/foo/v1"}
  Self = "self.io/me"
  MaxSteps = 2
- LastKinds = {"ref", "expose", "typelit", "generic"}
+ LastKinds = {"ref", "expose", "typelit", "generic", "generictime"}
  AbsPaths <- MCAbsPaths
  Cand <- MCCand
  UseFallback = TRUE
